@@ -50,6 +50,24 @@ def make_objects(ctx, res, kind):
         log = (objs.edit_sm if kind == "sm" else objs.edit_ssc)(rng, sf, steps)
         out.append((sf, origin, log))
         EDIT_HISTORIES.append((before, log, objs.dump(sf)))
+    # note data longer than the usual I/O block sizes, with characters the serializer must escape (and the two-character '//')
+    # sitting on, just before and just after the 4096/8192/16384-character marks of the value: escaping is per value, not per block
+    from simfile.sm import SMChart
+    from simfile.ssc import SSCChart
+    for i in range(ctx.scale(4, 40)):
+        sf = cls.blank()
+        c = (SMChart if kind == "sm" else SSCChart).blank()
+        total = rng.choice([8192, 16384, 16384, 32768]) + rng.randrange(200, 700)
+        rows = ("0000\n" * (total // 5 + 2))[:total]
+        chars = list(rows)
+        for mark in range(4096, total, 4096):
+            if rng.random() < .7:
+                tok = rng.choice(["//", "//", "\\", ";", ":", "\\\\", "// x"])
+                at = mark + rng.choice([-2, -1, -1, 0, 1]) - (1 if i % 2 else 0)
+                chars[at:at + len(tok)] = list(tok)
+        c.notes = "".join(chars).rstrip() if kind == "sm" else "".join(chars)
+        sf.charts.append(c)
+        out.append((sf, "blank+long-notes", [["long note data", len(c.notes)]]))
     return out
 
 
